@@ -379,9 +379,14 @@ pub(crate) fn ec_pairing(
             // Each element consists of an uncompressed G1 point (64 bytes) and an
             // uncompressed G2 point (128 bytes).
             let element_size = 128 + 64;
+            // Never reserve more than the VM memory can hold: elements beyond that
+            // fail the memory read below, and an unbounded reservation panics or
+            // aborts the host when `number_elements` is huge and cheap.
+            let max_elements = crate::consts::MEM_SIZE / (128 + 64);
             let mut elements = Vec::with_capacity(
                 usize::try_from(number_elements)
-                    .map_err(|_| fuel_tx::PanicReason::MemoryOverflow)?,
+                    .map_err(|_| fuel_tx::PanicReason::MemoryOverflow)?
+                    .min(max_elements),
             );
             for idx in 0..number_elements {
                 let start_offset = elements_ptr
